@@ -31,10 +31,18 @@ ssize_t __wrap_write(int fd, const void *buf, size_t n) {
   return __real_write(fd, buf, n);
 }
 
+/* STRIDE = screen->paddedWidthInBytes; op `stride pad` makes it larger than W*BPP (padding bytes 0xA5) */
+static int STRIDE;
 static uint32_t getpix(const char *fb, int x, int y) {
-  uint32_t v = 0; memcpy(&v, fb + ((size_t)y * W + x) * BPP, BPP); return v;
+  uint32_t v = 0; memcpy(&v, fb + (size_t)y * STRIDE + (size_t)x * BPP, BPP); return v;
 }
-static void setpix(char *fb, int x, int y, uint32_t v) { memcpy(fb + ((size_t)y * W + x) * BPP, &v, BPP); }
+static void setpix(char *fb, int x, int y, uint32_t v) { memcpy(fb + (size_t)y * STRIDE + (size_t)x * BPP, &v, BPP); }
+/* every padding byte between the rows still has its fill value? */
+static int pad_damaged(const char *fb) {
+  int x, y;
+  for (y = 0; y < H; y++) for (x = W * BPP; x < STRIDE; x++) if ((unsigned char)fb[(size_t)y * STRIDE + x] != 0xA5) return 1;
+  return 0;
+}
 
 static void dump(const char *tag, const char *fb) {
   int x, y;
@@ -43,6 +51,7 @@ static void dump(const char *tag, const char *fb) {
     if (y) putchar('/');
     for (x = 0; x < W; x++) printf("%s%x", x ? "," : "", getpix(fb, x, y));
   }
+  if (pad_damaged(fb)) printf(" PADDAMAGED");
   putchar('\n');
 }
 
@@ -108,7 +117,7 @@ static void obs_client(int k) {
   if (havepos) printf("%d,%d", posx, posy); else printf("-");
   printf(" f=%d%d%d%d%d cl=%d,%d pic=", cl->enableCursorShapeUpdates ? 1 : 0, cl->useRichCursorEncoding ? 1 : 0,
          cl->enableCursorPosUpdates ? 1 : 0, cl->cursorWasChanged ? 1 : 0, cl->cursorWasMoved ? 1 : 0, cl->cursorX, cl->cursorY);
-  { int x, y; for (y = 0; y < H; y++) { if (y) putchar('/'); for (x = 0; x < W; x++) printf("%s%x", x ? "," : "", getpix(pics[k], x, y)); } }
+  { int x, y; for (y = 0; y < H; y++) { if (y) putchar('/'); for (x = 0; x < W; x++) { uint32_t v = 0; memcpy(&v, pics[k] + ((size_t)y * W + x) * BPP, BPP); printf("%s%x", x ? "," : "", v); } } }
   free(shape);
 }
 
@@ -118,6 +127,7 @@ static void pump_obs(const char *tag) {
   vs_pump(scr, MAXCL, peers, bufs);
   printf("%s app=", tag);
   for (y = 0; y < H; y++) { if (y) putchar('/'); for (x = 0; x < W; x++) printf("%s%x", x ? "," : "", getpix(scr->frameBuffer, x, y)); }
+  if (pad_damaged(scr->frameBuffer)) printf(" PADDAMAGED");
   for (i = 0; i < MAXCL; i++) if (cls[i]) obs_client(i);
   putchar('\n');
 }
@@ -197,7 +207,7 @@ int main(void) {
     if (!strcmp(op, "case")) { drop_screen(); printf("%s\n", line); }
     else if (!strcmp(op, "screen")) {
       drop_screen();
-      W = a[0]; H = a[1]; BPP = a[2];
+      W = a[0]; H = a[1]; BPP = a[2]; STRIDE = W * BPP;
       scr = vs_screen(W, H, BPP);
       if (!scr) { printf("screen failed\n"); continue; }
       scr->serverFormat.redMax = a[3]; scr->serverFormat.greenMax = a[4]; scr->serverFormat.blueMax = a[5];
@@ -205,6 +215,18 @@ int main(void) {
       default_cursor = scr->cursor;
       scr->cursor = NULL;
       printf("screen ok\n");
+    }
+    else if (!strcmp(op, "stride")) {
+      /* stride pad: rows of the framebuffer are pad bytes further apart than W*BPP (paddedWidthInBytes);
+       * the padding is filled with 0xA5 and must never be written */
+      char *old = scr->frameBuffer;
+      STRIDE = W * BPP + a[0];
+      scr->frameBuffer = (char *)malloc((size_t)STRIDE * H + 8);
+      memset(scr->frameBuffer, 0xA5, (size_t)STRIDE * H + 8);
+      { int x, y; for (y = 0; y < H; y++) for (x = 0; x < W; x++) setpix(scr->frameBuffer, x, y, 0); }
+      scr->paddedWidthInBytes = STRIDE;
+      free(old);
+      printf("stride ok\n");
     }
     else if (!strcmp(op, "fb")) {
       char *p = rest; int x, y;
@@ -316,6 +338,7 @@ int main(void) {
        * then asks for the new server format, so that no pixel translation is involved */
       char *p = rest, *old = scr->frameBuffer, *nf = (char *)calloc((size_t)W * H, BPP); int x, y, i, bps;
       bps = (int)strtol(p, &p, 10);
+      STRIDE = W * BPP;       /* rfbNewFramebuffer: paddedWidthInBytes = width * bytesPerPixel */
       for (y = 0; y < H; y++) for (x = 0; x < W; x++) setpix(nf, x, y, (uint32_t)strtoul(p, &p, 16));
       rfbNewFramebuffer(scr, nf, W, H, bps, 3, BPP);
       free(old);
